@@ -141,7 +141,7 @@ struct Bfs {
         bool en = true; Tape t0; int a0 = asan_errors();
         Ctx ctx(rep, sc, hs0);
         std::unique_ptr<State> s = replay(h, &ctx, &en, &t0);
-        if (!en) { disabled++; continue; }
+        if (!en) { rep.flush_ctx_fails(ctx.fails, sc, hs0); disabled++; continue; }   // an unexpected exception is recorded in ctx and must not be lost
         if (t0.kinds.empty()) {
           transitions++;
           std::string c = sys.canon(*s);
@@ -175,6 +175,7 @@ struct Bfs {
           if (!journal(sc, hs)) continue;
           Ctx c2(rep, sc, hs); int a1 = asan_errors(); bool e3 = true;
           std::unique_ptr<State> s3 = replay(h, &c2, &e3);
+          if (!e3) { rep.flush_ctx_fails(c2.fails, sc, hs); continue; }
           std::string c = sys.canon(*s3);
           H128 hh = h128(c);
           bool isnew = !seen.count(hh);
